@@ -5,6 +5,7 @@ import (
 	"fmt"
 	"sync"
 	"testing"
+	"time"
 
 	"github.com/herohde/morlock/pkg/board"
 	"github.com/herohde/morlock/pkg/engine"
@@ -13,7 +14,9 @@ import (
 	"github.com/herohde/morlock/pkg/search/searchctl"
 	"github.com/seekerror/stdlib/pkg/lang"
 	"pgregory.net/rapid"
+	"verifharness/bridge"
 	"verifharness/gen"
+	"verifharness/oracle"
 	"verifharness/stats"
 )
 
@@ -84,6 +87,17 @@ var checkC18 = def("C18/deterministic", func(c detCase) error {
 	ro, err := runSearch(so, bo.Fork(), c.Other.Depth)
 	if err != nil {
 		return err
+	}
+	// (2b) after a search of the SAME position reached without this history (set up directly:
+	// same hash, different past) with the same search object
+	if len(c.Main.Moves) > 0 {
+		alt := bridge.Board(board.NewZobristTable(c.SeedA), *g.Cur())
+		if _, err := runSearch(s, alt, c.Main.Depth); err != nil {
+			return err
+		}
+		if r3b, _ := runSearch(s, ba.Fork(), c.Main.Depth); !r1.equal(r3b) {
+			return fmt.Errorf("%s: after searching the same position set up without its history, the search gives %v, before %v", where, r3b, r1)
+		}
 	}
 	if r3, _ := runSearch(s, ba.Fork(), c.Main.Depth); !r1.equal(r3) {
 		return fmt.Errorf("%s: after an unrelated search (%s at %s) the search gives %v, before %v", where, c.Other.Config, c.Other.FEN, r3, r1)
@@ -288,3 +302,101 @@ func TestC18_engine(t *testing.T) {
 		return checkC18Engine(c)
 	})
 }
+
+// inflightCase: the engine's game is changed (Move / TakeBack) while an analysis is in flight.
+type inflightCase struct {
+	searchCase          // root and configuration; Depth unused (the analysis is unlimited)
+	Ops        []string `json:"ops"` // moves or "takeback", each issued while an analysis runs
+	DelayUS    int      `json:"delay_us"`
+}
+
+var checkC18Inflight = def("C18/inflight", func(c inflightCase) error {
+	cfg, err := findConfig(c.Config)
+	if err != nil {
+		return err
+	}
+	ctx := context.Background()
+	mk := func() (*engine.Engine, error) {
+		s, _ := cfg.make(c.Param)
+		e := engine.New(ctx, "verif", "verif", s)
+		if err := e.Reset(ctx, c.FEN); err != nil {
+			return nil, err
+		}
+		for _, mv := range c.Moves {
+			if err := e.Move(ctx, mv); err != nil {
+				return nil, err
+			}
+		}
+		return e, nil
+	}
+	e1, err := mk() // analyses while its game changes
+	if err != nil {
+		return err
+	}
+	e2, err := mk() // never analyses
+	if err != nil {
+		return err
+	}
+	for i, op := range c.Ops {
+		if _, err := e1.Analyze(ctx, searchctl.Options{}); err != nil {
+			return fmt.Errorf("op %d: Analyze: %v", i, err)
+		}
+		if c.DelayUS > 0 {
+			time.Sleep(time.Duration(c.DelayUS) * time.Microsecond)
+		}
+		var err1, err2 error
+		if op == "takeback" {
+			err1, err2 = e1.TakeBack(ctx), e2.TakeBack(ctx)
+		} else {
+			err1, err2 = e1.Move(ctx, op), e2.Move(ctx, op)
+		}
+		if (err1 == nil) != (err2 == nil) {
+			return fmt.Errorf("op %d (%s): with an analysis in flight the engine answers %v, without %v", i, op, err1, err2)
+		}
+		// let the halted search finish unwinding on its fork, then look at the engine's own game
+		for k := 0; k < 3; k++ {
+			time.Sleep(time.Millisecond)
+			if e1.Position() != e2.Position() {
+				return fmt.Errorf("op %d (%s): Engine.Position()=%q, without analysis %q", i, op, e1.Position(), e2.Position())
+			}
+			if d := diffSnap(takeSnap(e1.Board()), takeSnap(e2.Board()), false); d != "" {
+				return fmt.Errorf("op %d (%s) issued while an analysis was in flight: the engine's game reports %s (compared with an engine that never analysed)", i, op, d)
+			}
+		}
+	}
+	_, _ = e1.Halt(ctx)
+	stats.Case("C18/inflight", stats.FP(c.searchCase, fmt.Sprint(c.Ops), c.DelayUS), len(c.Ops) > 0, "cfg:"+c.Config)
+	return nil
+})
+
+func TestC18_inflight(t *testing.T) {
+	runRapid(t, "C18/inflight", 1500, func(t *rapid.T) inflightCase {
+		sc := genSearchCase(t, searchConfigs)
+		c := inflightCase{searchCase: sc, DelayUS: rapid.SampledFrom([]int{0, 0, 50, 500}).Draw(t, "delay")}
+		g, err := gen.GameCase{FEN: sc.FEN, Moves: sc.Moves}.Build()
+		if err != nil {
+			return c
+		}
+		g = g.Clone()
+		pol := gen.DrawPolicy(t)
+		for i, n := 0, rapid.IntRange(1, 5).Draw(t, "nops"); i < n; i++ {
+			if len(g.Moves) > 0 && rapid.IntRange(0, 3).Draw(t, "tb") == 0 {
+				g.Pop()
+				c.Ops = append(c.Ops, "takeback")
+				continue
+			}
+			m, ok := gen.PickMove(t, g, pol)
+			if !ok {
+				break
+			}
+			g.Push(m)
+			c.Ops = append(c.Ops, m.String())
+		}
+		return c
+	}, func(c inflightCase) error {
+		stats.Sample("C18/inflight", c)
+		return checkC18Inflight(c)
+	})
+}
+
+var _ = oracle.InitialFEN
